@@ -102,6 +102,14 @@ PLAN["C07"] = {"kernels": [r"combinations"], "kinds": ["S", "E", "F"], "extra": 
                "trusted": KERNEL_TRUST + ["enumeration order of awkward_ListArray_combinations / awkward_RegularArray_combinations_64 (recursive helper over T**) is outside the translator: BOUNDED stand-in against itertools only; ak.cartesian is Python glue, not covered"]}
 
 
+def _slices_engine(pid, tier, seed, known):
+    from . import bounded_slices
+    return bounded_slices.engine(pid, tier, seed, known)
+
+
+PLAN["C01"]["extra"] = list(PLAN["C01"].get("extra", [])) + [_slices_engine]
+
+
 def _gcall_for(pid):
     def eng(pid_, tier, seed, known):
         from . import gcall
